@@ -59,9 +59,9 @@ Proof.
   destruct (N.eqb a 1); [injection EA as <-; destruct fut; reflexivity|discriminate].
 Qed.
 
-Theorem wok_reach c fut s : reach c fut s -> forall a A, get (ags s) a = Some A -> w_ok A = true.
+Theorem wok_mreach c fut s : mreach c fut s -> forall a A, get (ags s) a = Some A -> w_ok A = true.
 Proof.
-  apply (agents_inv c w_ok).
+  apply (agents_minv c w_ok).
   - intros A b. apply w_notified.
   - apply w_entry.
   - apply micro_wok.
@@ -239,10 +239,10 @@ Proof.
   - eapply IU; eauto.
 Qed.
 
-Theorem iw_reach c fut s : reach c fut s -> IW s.
+Theorem iw_mreach c fut s : mreach c fut s -> IW s.
 Proof.
   intros R. assert (G : WOK s /\ IW s); [|exact (proj2 G)].
-  revert s R. apply reach_inv.
+  revert s R. apply mreach_inv.
   - intros s0 a A cl pc [WK I] EA Hpc Hal He _. split.
     + intros b B EB. unfold begin_call in EB. cbn [ags] in EB. rewrite get_put in EB.
       destruct (N.eqb b a); [injection EB as <-; apply (w_entry c); auto; eapply WK; eauto|eapply WK; eauto].
@@ -281,3 +281,9 @@ Proof.
       * destruct fut; reflexivity.
       * intros a A EA _ _. destruct fut; reflexivity.
 Qed.
+
+Theorem wok_reach c fut s : reach c fut s -> forall a A, get (ags s) a = Some A -> w_ok A = true.
+Proof. intros R. apply (wok_mreach c fut). now apply reach_mreach. Qed.
+
+Theorem iw_reach c fut s : reach c fut s -> IW s.
+Proof. intros R. apply (iw_mreach c fut). now apply reach_mreach. Qed.
